@@ -392,6 +392,34 @@ struct C09Gen {
     if (r.chance(0.16)) *in += "  ";
   }
 };
+// Inputs denoting instants within a day of either end of the time_point<seconds> range, with and without an
+// explicit offset: the overflow -> false rule and its exact boundary.
+static void c09_limit_case(sup::Rng& r, std::string* fmt, std::string* in) {
+  i128 T = (r.chance(0.5) ? orc::I64MAX : orc::I64MIN) + r.range(-90000, 90000);
+  if (r.chance(0.3)) T = (r.chance(0.5) ? orc::I64MAX : orc::I64MIN) + r.range(-3, 3);
+  int off = r.chance(0.5) ? (int)r.range(-14, 14) * 3600 : (int)r.range(-86399, 86399);
+  bool with_off = r.chance(0.7);
+  Civ c = orc::civ_from_secs(T + (with_off ? off : 0));
+  if (!orc::fits64(c.y)) return;
+  int a = off < 0 ? -off : off;
+  char b[64];
+  static const char* dfm[] = {"%Y-%m-%d %H:%M:%S", "%Y-%m-%dT%H:%M:%E*S", "%H:%M:%S %d/%m/%Y", "%Y%m%d%H%M%S"};
+  int k = (int)r.range(0, 3);
+  *fmt = dfm[k];
+  snprintf(b, sizeof b, "-%02d-%02d %02d:%02d:%02d", c.m, c.d, c.H, c.M, c.S);
+  if (k == 0) *in = fm::dec(c.y) + b;
+  if (k == 1) { snprintf(b, sizeof b, "-%02d-%02dT%02d:%02d:%02d", c.m, c.d, c.H, c.M, c.S); *in = fm::dec(c.y) + b + (r.chance(0.5) ? ".5" : ""); }
+  if (k == 2) { snprintf(b, sizeof b, "%02d:%02d:%02d %02d/%02d/", c.H, c.M, c.S, c.d, c.m); *in = b + fm::dec(c.y); }
+  if (k == 3) { if (c.y < 0) { *fmt = dfm[0]; snprintf(b, sizeof b, "-%02d-%02d %02d:%02d:%02d", c.m, c.d, c.H, c.M, c.S); *in = fm::dec(c.y) + b; } else { snprintf(b, sizeof b, "%02d%02d%02d%02d%02d", c.m, c.d, c.H, c.M, c.S); *in = fm::dec(c.y) + b; } }
+  if (k == 3 && c.y >= 0) { *fmt = "%Y %m%d%H%M%S"; snprintf(b, sizeof b, " %02d%02d%02d%02d%02d", c.m, c.d, c.H, c.M, c.S); *in = fm::dec(c.y) + b; }
+  if (with_off) {
+    if (r.chance(0.5)) { *fmt += " %E*z"; snprintf(b, sizeof b, " %c%02d:%02d:%02d", off < 0 ? '-' : '+', a / 3600, a / 60 % 60, a % 60); }
+    else if (a % 60 == 0) { *fmt += " %z"; snprintf(b, sizeof b, " %c%02d%02d", off < 0 ? '-' : '+', a / 3600, a / 60 % 60); }
+    else { *fmt += "%::z"; snprintf(b, sizeof b, "%c%02d:%02d:%02d", off < 0 ? '-' : '+', a / 3600, a / 60 % 60, a % 60); }
+    *in += b;
+  }
+}
+
 static void c09_model(sup::Ctx& ctx, sup::Rng& r, long n) {
   C09Gen g(r);
   for (long i = 0; i < n; ++i) {
@@ -399,7 +427,13 @@ static void c09_model(sup::Ctx& ctx, sup::Rng& r, long n) {
     if (!z.ok || !z.have_oracle) continue;
     std::string fmt, in;
     i128 y;
-    g.build(&fmt, &in, &y);
+    if (i % 6 == 5) {
+      c09_limit_case(r, &fmt, &in);
+      if (fmt.empty()) continue;
+      ctx.stat("C09.range_limit_cases");
+    } else {
+      g.build(&fmt, &in, &y);
+    }
     fm::ParseRes m = fm::model_parse(fmt, in);
     if (m.st == fm::ParseRes::OUTSIDE_MODEL) {
       ctx.stat("C09.outside_model");
